@@ -27,6 +27,8 @@ fn alphabet() -> Vec<&'static str> {
         "    la t0, U",
         "    j U",
         "    jal V",
+        "    jal t0, A",
+        "    jal t0, U",
         "    ret",
         "    addi t0, t0, 1",
         "    li a7, 10\n    ecall",
@@ -237,7 +239,7 @@ impl Property for C16 {
     }
     fn info(&self, tier: Tier) -> Info {
         Info {
-            rule: "all programs of 1..4/5 lines over a 17-symbol label-structure alphabet (definitions of A and B - repeated symbols give duplicates -, uses of A, B and of undefined U, V in j / beq / jal / la, ret, an instruction, an exit, .data / .word / .text); every member parses; Manager::run must succeed, or fail with 'labels not defined' naming exactly the undefined labels at one of their uses, with 'duplicate label' at a later definition, or with another specific error located on text of the file - never a generic unexpected/assertion error or the nil file; for every 50th failing program the error must be visible in the CLI's default output. Non-trivial = programs whose analysis fails".into(),
+            rule: "all programs of 1..4/5 lines over a 19-symbol label-structure alphabet (definitions of A and B - repeated symbols give duplicates -, uses of A, B and of undefined U, V in j / beq / jal / jal with another link register / la, ret, an instruction, an exit, .data / .word / .text); every member parses; Manager::run must succeed, or fail with 'labels not defined' naming exactly the undefined labels at one of their uses, with 'duplicate label' at a later definition, or with another specific error located on text of the file - never a generic unexpected/assertion error or the nil file; for every 50th failing program the error must be visible in the CLI's default output. Non-trivial = programs whose analysis fails".into(),
             bounds: json!({"max_lines": self.space(tier).max, "alphabet": self.alpha}),
             assumptions: vec!["label definitions/uses are recomputed from the text by the harness".into()],
             states_counter: "cases",
